@@ -13,7 +13,8 @@ RULE = ("eps-NFA/NFA/DFA cases as in C01 (<=5 states, emphasis on eps cycles, de
         "reachability / structural definition / reachable-cycle search; get_accepted_words(n) for n in 0..4 and None "
         "(None only on reference-finite languages, under a logical step budget) drained by the monitor and compared "
         "as a multiset with the reference bounded language. Non-trivial: >=1 transition and a non-empty language; "
-        "distinct = canonical case hash.")
+        "distinct = canonical case hash."
+        ' Later additions: equal-hash symbol values; count-preserving edit scripts followed by enumeration at several bounds.')
 ASSUMPTIONS = ["termination is restated as bounded progress: a logical step budget on get_accepted_words"]
 TIERS = {
     "quick": {"workers": 8, "random": 3000},
